@@ -155,6 +155,7 @@ pub fn run(tier: Tier) -> i32 {
     let nontrivial = r0.values().filter(|v| !v.is_empty()).count() as u64;
     let describe = |c: Call| format!("({}, {}, file number {})", fs[c.f].0, detectors[c.d].name, c.fileno);
 
+    let t_phase = std::time::Instant::now();
     // ---------------------------------------------------------------- histories (fresh thread per history)
     let filenos: Vec<usize> = if tier == Tier::Quick { vec![0, 7] } else { vec![0, 1, 7, 1_000_000] };
     let mut alphabet: Vec<Call> = Vec::new();
@@ -215,6 +216,7 @@ pub fn run(tier: Tier) -> i32 {
         }
     }
 
+    eprintln!("[C15 phase] before 'directory contexts': {:.1}s", t_phase.elapsed().as_secs_f64());
     // ---------------------------------------------------------------- directory contexts
     let sel_sets: Vec<Vec<usize>> = {
         // ordered selections of <= 3 detectors of one category containing the target
@@ -342,6 +344,7 @@ pub fn run(tier: Tier) -> i32 {
         }
     }
 
+    eprintln!("[C15 phase] before 'threads under a baton': {:.1}s", t_phase.elapsed().as_secs_f64());
     // ---------------------------------------------------------------- threads under a baton
     let reduced: Vec<Call> = {
         let pick = ["solidity_math", "increment_decrement", "floating_pragma", "short_revert_string", "constructor_order", "pack_storage_variables", "unprotected_selfdestruct", "safe_math_pre_080"];
@@ -457,6 +460,7 @@ pub fn run(tier: Tier) -> i32 {
         run.merge_violations(vs);
     }
 
+    eprintln!("[C15 phase] before 'free-running stress (sampled, labelled)': {:.1}s", t_phase.elapsed().as_secs_f64());
     // ---------------------------------------------------------------- free-running stress (sampled, labelled)
     let rounds = if tier == Tier::Quick { 400 } else { 3000 };
     let stress_dets: Vec<usize> = detectors.iter().enumerate().filter(|(_, d)| ["solidity_math", "increment_decrement", "short_revert_string", "optimal_comparison"].contains(&d.name)).map(|(i, _)| i).collect();
